@@ -94,6 +94,7 @@ def me_thms(names):
 POOL_TB = TB_COMMON + [
     "modelled, not verified: gRPC's side of the balancer contract as played by the fake ClientConn (NewSubConn fails for an empty address list or on request; state reports arbitrary), Go map iteration order (the order of a new picker's ready list is an input of the model step, reported by the harness), the reflective key extraction on the harness's message type (C11 covers the general case)",
     "virtual clock: time.Now() in the package sources is rewritten to the harness clock by a regenerated overlay copy (bin/overlay.py); the rewrite refuses other wall-clock reads",
+    "schedule hook: the same overlay copy of gcp_balancer.go carries a line-preserving call `verifHookNewSubConn();` in front of the first statement of gcpBalancer.newSubConn, which lets the harness stop one pick between the pool-size check and newSubConn (operations pickhold / resume); if the pattern is not found the harness generates no such operations",
     "white-box digest: the harness reads the balancer's maps and counters in-package after every operation",
 ]
 
@@ -218,7 +219,8 @@ PROPS = {
     "C03": dict(pool_prop([], ["size bound: minSize <= maxSize and no Shutdown report for a current pool member (RunOk; known finding K6 outside, kernel-checked witness size_bound_needs_contract)"]),
                 theorems=pool_thms(["growth_only_when_saturated", "at_max_places_anyway", "below_watermark_places"]) +
                 [("GcpVerif.Proofs.PoolSlots", "GcpVerif.Pool." + n) for n in ["size_bounded", "slots_bijective", "pool1_run", "size_bound_needs_contract"]] +
-                [("GcpVerif.Proofs.PoolInitial", "GcpVerif.Pool." + n) for n in ["initial_size", "pristine_run", "enforce_len"]]),
+                [("GcpVerif.Proofs.PoolInitial", "GcpVerif.Pool." + n) for n in ["initial_size", "pristine_run", "enforce_len"]] +
+                [("GcpVerif.Proofs.PoolHold", "GcpVerif.Pool.pick_eq_hold_resume")]),
     "C04": dict(pool_prop([]), theorems=[("GcpVerif.Proofs.PoolPublish", "GcpVerif.Pool." + n) for n in
                 ["counters_exact", "pool_connections_only", "tables_run", "published_matches_pool", "err_picker_iff_tf", "pub_run"]] +
                 [("GcpVerif.Proofs.PoolReady", "GcpVerif.Pool." + n) for n in
